@@ -128,14 +128,34 @@ func c04Duty(slot phase0.Slot, order []phase0.ValidatorIndex, ref map[phase0.Val
 			in = append(in, &apiv1.AttesterDuty{Slot: slot, ValidatorIndex: v, CommitteeIndex: ref[v].c, CommitteeLength: sizes[ref[v].c],
 				CommitteesAtSlot: 2, ValidatorCommitteeIndex: ref[v].p})
 		}
+		// the beacon node's answer covers an epoch: the neighbouring slots have duties too (other validators,
+		// the same committee numbers, committees two members longer / one shorter, as happens on a real chain)
+		for _, d := range []struct {
+			off   int64
+			delta int64
+		}{{-1, -1}, {1, 2}} {
+			for c, sz := range sizes {
+				in = append(in, &apiv1.AttesterDuty{Slot: phase0.Slot(int64(slot) + d.off), ValidatorIndex: phase0.ValidatorIndex(90 + int64(c) + 10*d.off), CommitteeIndex: c,
+					CommitteeLength: uint64(int64(sz) + d.delta), CommitteesAtSlot: 2, ValidatorCommitteeIndex: 0})
+			}
+		}
 		ds, err := attester.MergeDuties(context.Background(), in)
 		if err != nil {
 			return nil, err
 		}
-		if len(ds) != 1 {
-			return nil, fmt.Errorf("MergeDuties returned %d duties for one slot", len(ds))
+		var own *attester.Duty
+		for _, d := range ds {
+			if d.Slot() == slot {
+				if own != nil {
+					return nil, fmt.Errorf("MergeDuties returned two duties for slot %d", slot)
+				}
+				own = d
+			}
 		}
-		return ds[0], nil
+		if own == nil {
+			return nil, fmt.Errorf("MergeDuties returned no duty for slot %d", slot)
+		}
+		return own, nil
 	}
 	var cis []phase0.CommitteeIndex
 	var pos []uint64
@@ -383,7 +403,7 @@ func init() {
 	hx.Register(&hx.Prop{
 		ID:    "C04",
 		Title: "Each attestation carries exactly its validator's assignment and the agreed data",
-		Rule: "one unit per (ordered selection of 1-3 validators out of {1,2,3,4}, committee sizes, duty built by NewDuty in that order or by MergeDuties); inside, all assignments of distinct (committee in {0,1}, position in {0,1,2}) pairs and all skip patterns {none, already attested by a preceding Attest of the same epoch, no account, zero signature}^k are enumerated (thorough: also sizes (3,3),(4,4) and the preceding run on the same slot); " +
+		Rule: "one unit per (ordered selection of 1-3 validators out of {1,2,3,4}, committee sizes, duty built by NewDuty in that order or by MergeDuties from an answer that also holds duties of the neighbouring slots with committees of other lengths); inside, all assignments of distinct (committee in {0,1}, position in {0,1,2}) pairs and all skip patterns {none, already attested by a preceding Attest of the same epoch, no account, zero signature}^k are enumerated (thorough: also sizes (3,3),(4,4) and the preceding run on the same slot); " +
 			"the real attester runs the whole Attest path; the stand-in signature encodes the signing account and the signed values, and every submitted attestation is compared with the duty entry of the validator that signed it and with the data obtained in that run; " +
 			"non-trivial = at least one validator of the duty is skipped; distinct = distinct (number skipped, attestations submitted per run, Attest error) classes",
 		Assumptions: []string{
